@@ -14,10 +14,9 @@ class Dispatcher(object):
         return wrap
 
     def get_for(self, fname):
-        try:
-            return self._registry_[fname]
-        except KeyError:
-            raise SyntaxError('Function not found for %s' % fname)
+        # None for an unknown name: the caller turns that into #NAME?.  (Raising SyntaxError here was taken by
+        # ply for a request to enter grammar error recovery, and the call silently evaluated to a blank.)
+        return self._registry_.get(fname)
 
     def __iter__(self):
         return iter(registry.values())
